@@ -1770,6 +1770,9 @@ class MindsDBParser(Parser):
         elif isinstance(p[2], int):
             node.parts.append(str(p[2]))
         elif isinstance(p[2], str):
+            if p[2] == '':
+                # a."" : an empty part has no printable form (`` is not a token)
+                raise ParsingException('Identifier part can not be empty')
             node.parts.append(p[2])
         else:
             node.parts += p[2].parts
